@@ -181,23 +181,29 @@ theorem visitSelsR (h : TAlg c R) : ∀ (xs : List Sel) (st : St), st.ti.directi
 end
 
 
-theorem visitVarDefR (h : TAlg c R) (v : VarDef) (st : St) :
-    R (withView st.ti.view (varDefNodes v)) st (visitVarDef c v st) := by
-  rw [visitVarDef, varDefNodes, withView_cons]
+theorem visitVarDefR (h : TAlg c R) (v : VarDef) (st : St) (hd : st.ti.directive = none) :
+    R (tnVarDef c.schema st.ti.view v) st (visitVarDef c v st) := by
+  rw [visitVarDef, tnVarDef, withView_cons, List.cons_append]
   refine h.node (.varDef v) _ _ st rfl (fun _ e => by cases e) (fun st1 e => ?_)
   have hv1 : st1.ti.view = st.ti.view := by rw [e, view_enter]; rfl
-  have key : ∀ st', st'.ti.view = st.ti.view →
-      R (withView st.ti.view [.typeNode v.type]) st' (visitNode c (.typeNode v.type) id st') := by
-    intro st' hv'
-    have := leafR h (.typeNode v.type) st' rfl (fun _ e => by cases e) rfl
-    rwa [hv'] at this
-  rw [withView_append]
-  cases hd : v.default with
-  | none => simpa [withView] using key st1 hv1
+  have hd1 : st1.ti.directive = none := by rw [e, directive_tiEnter _ _ _ (fun _ => by simp)]; exact hd
+  have key : ∀ st', st'.ti = st1.ti →
+      R (withView st.ti.view [.typeNode v.type] ++ tnDirs c.schema st.ti.view v.dirs) st'
+        (visitDirectives c v.dirs (visitNode c (.typeNode v.type) id st')) := by
+    intro st' ht
+    have hv' : st'.ti.view = st.ti.view := by rw [ht]; exact hv1
+    have a := leafR h (.typeNode v.type) st' rfl (fun _ e => by cases e) rfl
+    have b := visitDirectivesR h v.dirs (visitNode c (.typeNode v.type) id st') (by rw [h.ti a, ht]; exact hd1)
+    rw [h.ti a, hv'] at b
+    rw [hv'] at a
+    exact h.append a b
+  rw [withView_append, List.append_assoc]
+  cases hd' : v.default with
+  | none => simpa [withView] using key st1 rfl
   | some dv =>
     simp only
     have h1 := visitValueR h dv st1
-    have h2 := key (visitValue c dv st1) (by rw [h.ti h1]; exact hv1)
+    have h2 := key (visitValue c dv st1) (h.ti h1)
     rw [hv1] at h1
     exact h.append h1 h2
 
@@ -211,7 +217,7 @@ theorem visitDefR (h : TAlg c R) (d : Def) (st : St) (h0 : st.ti = {}) :
     have := h.node (.operation kind name vars dirs sels) (fun st =>
         visitNode c (.selectionSet ssid sels) (visitSels c sels)
           (visitDirectives c dirs (vars.foldl (fun st v => visitVarDef c v st) st)))
-      (withView (View.enter c.schema (.operation kind name vars dirs sels) {}) (vars.flatMap varDefNodes) ++
+      (vars.flatMap (tnVarDef c.schema (View.enter c.schema (.operation kind name vars dirs sels) {})) ++
         tnDirs c.schema (View.enter c.schema (.operation kind name vars dirs sels) {}) dirs ++
         (.selectionSet ssid sels, View.enter c.schema (.selectionSet ssid sels)
             (View.enter c.schema (.operation kind name vars dirs sels) {})) ::
@@ -221,11 +227,8 @@ theorem visitDefR (h : TAlg c R) (d : Def) (st : St) (h0 : st.ti = {}) :
         have hd1 : st1.ti.directive = none := by rw [e, directive_tiEnter _ _ _ (fun _ => by simp)]; exact hd0
         have hv1 : st1.ti.view = View.enter c.schema (.operation kind name vars dirs sels) {} := by
           rw [e, view_enter, hv0]
-        have h1 := foldlR h (fun _ => True) (visitVarDef c) (fun v x => withView v (varDefNodes x))
-          (fun a st _ => visitVarDefR h a st) vars st1 trivial
-        have h1' : R (withView st1.ti.view (vars.flatMap varDefNodes)) st1
-            (vars.foldl (fun st v => visitVarDef c v st) st1) := by
-          simpa [withView, List.map_flatMap] using h1
+        have h1' := foldlR h (fun t => t.directive = none) (visitVarDef c)
+          (fun v x => tnVarDef c.schema v x) (fun a st hp => visitVarDefR h a st hp) vars st1 hd1
         have h2 := visitDirectivesR h dirs _ (by rw [h.ti h1']; exact hd1)
         have h3 := h.node (.selectionSet ssid sels) (visitSels c sels) _
           (visitDirectives c dirs (vars.foldl (fun st v => visitVarDef c v st) st1))
